@@ -18,7 +18,7 @@ def run(ctx):
     thorough = ctx.thorough()
     proved = ctx.prove()
     ctx.trusted += F.TRUSTED
-    p = F.Pipeline(ctx, "C14", n_gen=9000 if thorough else 260, n_random=6 if thorough else 3)
+    p = F.Pipeline(ctx, "C14", n_gen=9000 if thorough else 420, n_random=6 if thorough else 3)
     n2 = p.second_process(len(p.ok) if thorough else 1500)
     n_idem, bad = p.model_idempotence()
     for i in bad:
@@ -37,4 +37,4 @@ def run(ctx):
         rule="theorems of coq/Props/C14.v (unbounded) + double-format oracle on the implementation for every "
              ".vcl file of the repository x default + every single-option flip (exhaustive), focus programs, "
              "grammar-generated programs with leading / trailing / infix comments, empty-line groups, long wrapping "
-             "expressions and trailing comments to align x sampled configurations; distinct = distinct (source, configuration)")
+             "expressions and trailing comments to align x sampled configurations; declaration-heavy programs x every pair of the six declaration options; whitespace-rich string literals; distinct = distinct (source, configuration); per-dimension counts in coverage.dimensions")
